@@ -172,6 +172,32 @@ static ASMJIT_INLINE bool is_valid_address_16(const Mem& m) noexcept {
   return r >= Operand::kVirtIdMin || is_bx_or_bp(r) || is_si_or_di(r);
 }
 
+// Encodings where the assembler derives the operand size from a memory operand when no register operand provides it -
+// these report `kAmbiguousOperandSize` if the memory operand has no size (other encodings have a default size).
+static ASMJIT_INLINE bool is_mem_size_required_by_encoding(uint32_t encoding, size_t op_count) noexcept {
+  switch (encoding) {
+    case InstDB::kEncodingX86Arith:
+    case InstDB::kEncodingX86Bt:
+    case InstDB::kEncodingX86Crc:
+    case InstDB::kEncodingX86IncDec:
+    case InstDB::kEncodingX86Ins:
+    case InstDB::kEncodingX86M_GPB:
+    case InstDB::kEncodingX86M_GPB_MulDiv:
+    case InstDB::kEncodingX86Mov:
+    case InstDB::kEncodingX86Outs:
+    case InstDB::kEncodingX86Pop:
+    case InstDB::kEncodingX86Rot:
+    case InstDB::kEncodingX86StrMm:
+    case InstDB::kEncodingX86Test:
+      return true;
+    case InstDB::kEncodingX86Imul:
+      // Only the one operand form (like MUL), the other forms take the size from the destination register.
+      return op_count == 1;
+    default:
+      return false;
+  }
+}
+
 static ASMJIT_INLINE bool check_op_sig(const InstDB::OpSignature& op, const InstDB::OpSignature& ref, bool& imm_out_of_range) noexcept {
   // Fail if operand types are incompatible.
   InstDB::OpFlags common_flags = op.flags() & ref.flags();
@@ -648,6 +674,18 @@ static ASMJIT_FAVOR_SIZE Error validate(InstDB::Mode mode, const BaseInst& inst,
     // was out of bounds. We can return a more descriptive error if we know this.
     bool global_imm_out_of_range = false;
 
+    // Memory operands given without a size - the sized memory alternatives of every matching signature are collected
+    // to detect an ambiguous operand size.
+    constexpr InstDB::OpFlags kMemSizedMask = InstDB::OpFlags::kMemMask & ~InstDB::OpFlags::kMemUnspecified;
+    uint32_t sizeless_mem_ops = 0;
+    for (i = 0; i < op_count && is_mem_size_required_by_encoding(inst_info._encoding, op_count); i++) {
+      if (Support::test(op_sig_translated[i].flags(), InstDB::OpFlags::kMemUnspecified)) {
+        sizeless_mem_ops |= 1u << i;
+      }
+    }
+    InstDB::OpFlags matched_mem_sizes = InstDB::OpFlags::kNone;
+    bool ambiguous_mem_size = false;
+
     for (const InstDB::InstSignature& inst_signature : inst_signatures) {
       // Only match signatures that are compatible with the requested mode.
       if (!inst_signature.supports_mode(mode)) {
@@ -658,11 +696,15 @@ static ASMJIT_FAVOR_SIZE Error validate(InstDB::Mode mode, const BaseInst& inst,
       uint32_t j = 0;
       uint32_t inst_op_count = inst_signature.op_count();
       bool local_imm_out_of_range = false;
+      InstDB::OpFlags row_mem_sizes = InstDB::OpFlags::kNone;
 
       if (inst_op_count == op_count) {
         for (j = 0; j < op_count; j++) {
           if (!check_op_sig(op_sig_translated[j], inst_signature.op_signature(j), local_imm_out_of_range)) {
             break;
+          }
+          if (sizeless_mem_ops & (1u << j)) {
+            row_mem_sizes |= inst_signature.op_signature(j).flags() & kMemSizedMask;
           }
         }
       }
@@ -686,6 +728,9 @@ Next:
           if (!check_op_sig(*op_chk, *op_ref, local_imm_out_of_range)) {
             break;
           }
+          if (sizeless_mem_ops & (1u << j)) {
+            row_mem_sizes |= op_ref->flags() & kMemSizedMask;
+          }
         }
       }
       else {
@@ -697,15 +742,32 @@ Next:
         if (!local_imm_out_of_range) {
           // The match must clear `global_imm_out_of_range` as we have matched all operands.
           global_imm_out_of_range = false;
+
+          if (!sizeless_mem_ops) {
+            inst_signature_matched = true;
+            break;
+          }
+
+          // Signatures that only differ in the size of the sizeless memory operand make the operand size ambiguous.
+          if (inst_signature_matched && row_mem_sizes != matched_mem_sizes) {
+            ambiguous_mem_size = true;
+          }
+          matched_mem_sizes = row_mem_sizes;
           inst_signature_matched = true;
-          break;
+          continue;
         }
-        global_imm_out_of_range = local_imm_out_of_range;
+        if (!inst_signature_matched) {
+          global_imm_out_of_range = local_imm_out_of_range;
+        }
       }
     }
 
     if (!inst_signature_matched) {
       return make_error(global_imm_out_of_range ? Error::kInvalidImmediate : Error::kInvalidInstruction);
+    }
+
+    if (ambiguous_mem_size) {
+      return make_error(Error::kAmbiguousOperandSize);
     }
   }
 
@@ -716,6 +778,17 @@ Next:
   // implemented by the assembler (rdmsr|wrmsrns r64, imm32).
   if (ASMJIT_UNLIKELY(inst_info._encoding == InstDB::kEncodingX86Op && Support::test(combined_op_flags, InstDB::OpFlags::kImmMask))) {
     return make_error(Error::kInvalidInstruction);
+  }
+
+  // ENQCMD|ENQCMDS|MOVDIR64B - the destination is passed in a register that uses the address size of the source, so both
+  // memory operands must use the same base type; the destination's segment is always ES.
+  if (inst_info._encoding == InstDB::kEncodingX86EnqcmdMovdir64b && op_count == 2 && operands[0].is_mem() && operands[1].is_mem()) {
+    const Mem& m0 = operands[0].as<Mem>();
+    const Mem& m1 = operands[1].as<Mem>();
+
+    if (ASMJIT_UNLIKELY(m0.base_type() != m1.base_type() || (m0.has_segment() && m0.segment_id() != SReg::kIdEs))) {
+      return make_error(Error::kInvalidInstruction);
+    }
   }
 
   // Validate Mask Register Pair
